@@ -1,7 +1,544 @@
 package main
 
-import "verif/harness/lib"
+// Generators of engine `reasm` (see notes/reasm.md).  Every random choice comes from r.
+
+import (
+	"fmt"
+
+	"verif/harness/lib"
+)
+
+type segm struct {
+	off   int // offset in S of the first payload byte
+	n     int
+	syn   bool
+	fin   bool
+	rst   bool
+	empty bool
+}
+
+type flowGen struct {
+	conn, dir int
+	isn       uint32
+	S         []byte
+	segs      []segm
+	next      int
+}
+
+type cgen struct {
+	r    *lib.Rand
+	emit func(string)
+	ts   int
+	keep string // case-level keep style: "", "mix" or a rule
+	cmpl string
+}
+
+func (g *cgen) tick() int {
+	g.ts += g.r.Intn(3)
+	return g.ts
+}
+
+func (g *cgen) keepRule() string {
+	switch g.keep {
+	case "":
+		return "n"
+	case "mix":
+		switch g.r.Intn(5) {
+		case 0:
+			return fmt.Sprintf("a%d", g.r.Intn(12))
+		case 1:
+			return fmt.Sprintf("e%d", 1+g.r.Intn(6))
+		case 2:
+			return fmt.Sprintf("m%d", 2+g.r.Intn(6))
+		}
+		return "n"
+	}
+	return g.keep
+}
+
+func pickKeepStyle(r *lib.Rand) string {
+	switch x := r.Intn(100); {
+	case x < 45:
+		return ""
+	case x < 65:
+		return fmt.Sprintf("m%d", r.Pick([]int{2, 3, 5, 7, 16, 1000, 1900, 2000}))
+	case x < 75:
+		return fmt.Sprintf("e%d", r.Pick([]int{1, 2, 3, 8, 1899, 1901, 2500}))
+	case x < 85:
+		return fmt.Sprintf("a%d", r.Pick([]int{0, 0, 1, 2, 3, 5, 9, 1900, 4000}))
+	}
+	return "mix"
+}
+
+func pickCmpl(r *lib.Rand) string {
+	switch x := r.Intn(100); {
+	case x < 60:
+		return "1"
+	case x < 75:
+		return "0"
+	}
+	return "p"
+}
+
+func pickISN(r *lib.Rand, n int) uint32 {
+	few := uint32(r.Intn(7)) - 3
+	switch r.Intn(12) {
+	case 0:
+		return 0
+	case 1:
+		return 0xffffffff - uint32(r.Intn(3))
+	case 2: // wrap at a random place inside S
+		return uint32(0x100000000 - int64(1+r.Intn(n+2)))
+	case 3: // payload byte 0 is exactly at 0 / SYN at 2^32-1 ... last byte at 2^32-1
+		return uint32(0x100000000 - int64(n) - int64(r.Intn(3)))
+	case 4:
+		return 1<<30 + few
+	case 5:
+		return 3<<30 + few
+	case 6:
+		return 1<<31 + few
+	case 7:
+		return uint32(0x100000000 - int64(n/2) - 1)
+	case 8:
+		return uint32(r.Intn(1000))
+	}
+	return uint32(r.U64())
+}
+
+func pickLen(r *lib.Rand, tier string) int {
+	x := r.Intn(100)
+	switch {
+	case x < 35:
+		return 1 + r.Intn(8)
+	case x < 70:
+		return 9 + r.Intn(52)
+	case x < 85:
+		return 61 + r.Intn(340)
+	}
+	if tier == "thorough" {
+		return 1901 + r.Intn(6000)
+	}
+	return 1901 + r.Intn(3000)
+}
+
+// partition [0,n) into chunks
+func partition(r *lib.Rand, n int) []segm {
+	var out []segm
+	style := r.Intn(4)
+	for o := 0; o < n; {
+		var l int
+		switch style {
+		case 0:
+			l = 1 + r.Intn(4)
+		case 1:
+			l = 1 + r.Intn(40)
+		case 2:
+			l = 1 + r.Intn(2600)
+		default:
+			l = 1 + r.Intn(1+n/2)
+		}
+		if o+l > n {
+			l = n - o
+		}
+		out = append(out, segm{off: o, n: l})
+		o += l
+	}
+	return out
+}
+
+func shuffle(r *lib.Rand, s []segm) {
+	for i := len(s) - 1; i > 0; i-- {
+		j := r.Intn(i + 1)
+		s[i], s[j] = s[j], s[i]
+	}
+}
+
+func insertAt(s []segm, i int, x segm) []segm {
+	s = append(s, segm{})
+	copy(s[i+1:], s[i:])
+	s[i] = x
+	return s
+}
+
+// buildFlow makes the wire history of one direction.
+func buildFlow(r *lib.Rand, tier string, conn, dir int, short bool) *flowGen {
+	n := pickLen(r, tier)
+	if short {
+		n = 1 + r.Intn(30)
+	}
+	f := &flowGen{conn: conn, dir: dir, S: r.Bytes(n)}
+	f.isn = pickISN(r, n)
+	segs := partition(r, n)
+	// FIN / RST
+	switch x := r.Intn(100); {
+	case x < 40:
+		segs[len(segs)-1].fin = true
+	case x < 60:
+		segs = append(segs, segm{off: n, n: 0, fin: true, empty: true})
+	case x < 68:
+		segs = append(segs, segm{off: n, n: 0, rst: true, empty: true})
+	}
+	// order
+	switch r.Intn(6) {
+	case 0, 1: // in order
+	case 2: // reversed
+		for i, j := 0, len(segs)-1; i < j; i, j = i+1, j-1 {
+			segs[i], segs[j] = segs[j], segs[i]
+		}
+	case 3:
+		shuffle(r, segs)
+	default: // a few local swaps
+		for k := r.Intn(4); k >= 0 && len(segs) > 1; k-- {
+			i := r.Intn(len(segs) - 1)
+			j := i + 1 + r.Intn(imin(3, len(segs)-1-i))
+			segs[i], segs[j] = segs[j], segs[i]
+		}
+	}
+	// duplicates and overlapping retransmissions (consistent data)
+	for k := r.Intn(5); k > 0; k-- {
+		var x segm
+		if r.Bool() && len(segs) > 0 {
+			x = segs[r.Intn(len(segs))]
+			x.fin = x.fin && r.Bool()
+		} else {
+			a := r.Intn(n)
+			l := 1 + r.Intn(imin(n-a, 1+r.Pick([]int{3, 10, 60, 3000})))
+			x = segm{off: a, n: l}
+		}
+		segs = insertAt(segs, r.Intn(len(segs)+1), x)
+	}
+	// empty ACK-only segments
+	if r.Chance(20) {
+		segs = insertAt(segs, r.Intn(len(segs)+1), segm{off: r.Intn(n + 1), n: 0, empty: true})
+	}
+	// SYN
+	syn := segm{off: 0, n: 0, syn: true, empty: true}
+	if r.Chance(15) { // SYN carrying data
+		syn.n = 1 + r.Intn(imin(n, 5))
+		syn.empty = false
+	}
+	switch x := r.Intn(100); {
+	case x < 65:
+		segs = insertAt(segs, 0, syn)
+	case x < 80:
+		segs = insertAt(segs, r.Intn(len(segs)+1), syn)
+	case x < 90: // retransmitted SYN
+		segs = insertAt(segs, 0, syn)
+		s2 := syn
+		if r.Chance(30) {
+			s2.n = imin(n, 1+r.Intn(4))
+			s2.empty = false
+		}
+		segs = insertAt(segs, 1+r.Intn(len(segs)), s2)
+	default: // start never seen
+	}
+	f.segs = segs
+	return f
+}
+
+func (g *cgen) emitStream(f *flowGen) {
+	g.emit(fmt.Sprintf("reasm stream %d %d %d %s", f.conn, f.dir, f.isn, lib.Hex(f.S)))
+}
+
+func (g *cgen) emitSeg(f *flowGen, s segm) {
+	seq := f.isn + 1 + uint32(s.off)
+	flags := "A"
+	if s.syn {
+		seq = f.isn
+		flags = "S"
+	}
+	if s.fin {
+		flags += "F"
+	}
+	if s.rst {
+		flags += "R"
+	}
+	acc := 1
+	if x := g.r.Intn(100); x < 2 {
+		acc = 0
+	} else if x < 3 {
+		acc = 2
+	}
+	g.emit(fmt.Sprintf("reasm seg %d %d %d %s %d %d %s %s %s", f.conn, f.dir, seq, flags, g.tick(), acc, g.keepRule(), g.cmpl, lib.Hex(f.S[s.off:s.off+s.n])))
+}
+
+func (g *cgen) emitFlush() {
+	t := g.ts - 2 + g.r.Intn(6)
+	if t < 0 {
+		t = 0
+	}
+	tc := 0
+	switch x := g.r.Intn(100); {
+	case x < 15:
+		tc = t
+	case x < 25:
+		tc = g.ts + 5
+	case x < 30:
+		tc = imax(0, g.ts-3)
+	}
+	if g.r.Chance(15) {
+		t = g.ts + 5
+	}
+	g.emit(fmt.Sprintf("reasm flush %d %d %s %s", t, tc, g.keepRule(), g.cmpl))
+}
+
+func imax(a, b int) int {
+	if a > b {
+		return a
+	}
+	return b
+}
+
+func (g *cgen) emitOpts() {
+	L := g.r.Pick([]int{1, 2, 3, 10})
+	switch g.r.Intn(3) {
+	case 0:
+		g.emit(fmt.Sprintf("reasm opts %d 0", L))
+	case 1:
+		g.emit(fmt.Sprintf("reasm opts 0 %d", L))
+	default:
+		g.emit(fmt.Sprintf("reasm opts %d %d", L, g.r.Pick([]int{1, 2, 3, 10})))
+	}
+}
+
+// streamCase: nconn connections, each with one or two directions, interleaved.
+func streamCase(r *lib.Rand, tier string, emit func(string), nconn int) {
+	g := &cgen{r: r, emit: emit, keep: pickKeepStyle(r), cmpl: pickCmpl(r)}
+	emit("reset")
+	if r.Chance(45) {
+		g.emitOpts()
+	}
+	var flows []*flowGen
+	for c := 0; c < nconn; c++ {
+		id := 1 + c
+		if nconn == 1 {
+			id = 1 + r.Intn(9)
+		}
+		d0 := r.Intn(2)
+		flows = append(flows, buildFlow(r, tier, id, d0, nconn > 2))
+		if r.Chance(40) {
+			flows = append(flows, buildFlow(r, tier, id, 1-d0, true))
+		}
+	}
+	for _, f := range flows {
+		g.emitStream(f)
+	}
+	flushP := r.Pick([]int{0, 0, 5, 10, 25})
+	live := len(flows)
+	for live > 0 {
+		f := flows[r.Intn(len(flows))]
+		if f.next >= len(f.segs) {
+			continue
+		}
+		g.emitSeg(f, f.segs[f.next])
+		f.next++
+		if f.next == len(f.segs) {
+			live--
+		}
+		if r.Chance(flushP) {
+			g.emitFlush()
+		}
+		if r.Chance(2) {
+			if r.Bool() {
+				g.emitOpts()
+			} else {
+				emit("reasm opts 0 0")
+			}
+		}
+	}
+	// sometimes a second incarnation of a connection after everything was closed
+	if r.Chance(15) {
+		emit(fmt.Sprintf("reasm flush %d %d %s %s", g.ts+10, g.ts+10, g.keepRule(), g.cmpl))
+		f := buildFlow(r, tier, flows[0].conn, r.Intn(2), true)
+		g.emitStream(f)
+		for _, s := range f.segs {
+			g.emitSeg(f, s)
+		}
+	}
+	if r.Chance(10) {
+		g.emitFlush()
+	}
+	emit(fmt.Sprintf("reasm flushall %s %s", g.keepRule(), g.cmpl))
+	if r.Chance(10) { // FlushAll twice: nothing may happen the second time
+		emit(fmt.Sprintf("reasm flushall %s %s", g.keepRule(), g.cmpl))
+	}
+}
+
+// junkCase: segments that are not consistent with any sender stream (but stay within a small window).
+func junkCase(r *lib.Rand, emit func(string)) {
+	g := &cgen{r: r, emit: emit, keep: pickKeepStyle(r), cmpl: pickCmpl(r)}
+	emit("reset")
+	if r.Chance(50) {
+		g.emitOpts()
+	}
+	base := pickISN(r, 40)
+	nops := 3 + r.Intn(25)
+	for i := 0; i < nops; i++ {
+		if r.Chance(12) {
+			g.emitFlush()
+			continue
+		}
+		seq := base + uint32(r.Intn(60))
+		flags := ""
+		if r.Chance(12) {
+			flags += "S"
+		}
+		if r.Chance(8) {
+			flags += "F"
+		}
+		if r.Chance(4) {
+			flags += "R"
+		}
+		if r.Chance(70) {
+			flags += "A"
+		}
+		if flags == "" {
+			flags = "-"
+		}
+		n := r.Pick([]int{0, 1, 1, 2, 3, 5, 8, 13})
+		if r.Chance(3) {
+			n = 1900 + r.Intn(2100)
+		}
+		acc := 1
+		if r.Chance(4) {
+			acc = r.Pick([]int{0, 2})
+		}
+		emit(fmt.Sprintf("reasm seg %d %d %d %s %d %d %s %s %s", 1+r.Intn(2), r.Intn(2), seq, flags, g.tick(), acc, g.keepRule(), g.cmpl, lib.Hex(r.Bytes(n))))
+	}
+	emit(fmt.Sprintf("reasm flushall %s %s", g.keepRule(), g.cmpl))
+}
+
+// seqCase: Sequence.Difference / Add against the mathematical definition on boundary values.
+func seqCase(r *lib.Rand, emit func(string), nrand int) {
+	emit("reset")
+	var B []uint64
+	for _, c := range []uint64{0, 1 << 30, 1 << 31, 3 << 30, 1 << 32} {
+		for d := int64(-3); d <= 3; d++ {
+			v := int64(c) + d
+			if v >= 0 && v < 1<<32 {
+				B = append(B, uint64(v))
+			}
+		}
+	}
+	K := []int64{0, 1, 2, 3, 100, 1899, 1900, 1<<30 - 1, 1<<30 - 2, 1 << 29}
+	for _, s := range B {
+		for _, k := range K {
+			for _, sg := range []int64{1, -1} {
+				t := (int64(s) + sg*k + 1<<32) % (1 << 32)
+				emit(fmt.Sprintf("reasm seqdiff %d %d", s, t))
+			}
+			emit(fmt.Sprintf("reasm seqadd %d %d", s, k))
+			emit(fmt.Sprintf("reasm seqadd %d %d", s, -k))
+		}
+	}
+	for i := 0; i < nrand; i++ {
+		s := r.U64() % (1 << 32)
+		k := int64(r.U64()%(1<<30)) * int64(1-2*r.Intn(2))
+		t := (int64(s) + k + 1<<32) % (1 << 32)
+		emit(fmt.Sprintf("reasm seqdiff %d %d", s, t))
+		emit(fmt.Sprintf("reasm seqadd %d %d", s, k))
+	}
+}
+
+// smallScope: every sequence of `depth` symbols over a small alphabet of segments of S = "abcdef".
+func smallScope(emit func(string), depth int) {
+	S := []byte("abcdef")
+	type sym struct {
+		off, n   int
+		syn, fin bool
+		flush    bool
+	}
+	alpha := []sym{
+		{off: 0, n: 0, syn: true}, {off: 0, n: 2}, {off: 2, n: 2}, {off: 4, n: 2, fin: true},
+		{off: 1, n: 4}, {off: 0, n: 6}, {off: 3, n: 1}, {off: 2, n: 4}, {flush: true},
+	}
+	idx := make([]int, depth)
+	caseNo := 0
+	for {
+		for _, isn := range []uint32{0xfffffffc, 5} {
+			emit("reset")
+			keep := "n"
+			if caseNo%3 == 1 {
+				keep = "m4"
+			} else if caseNo%3 == 2 {
+				keep = "a1"
+			}
+			if caseNo%2 == 1 {
+				emit("reasm opts 2 0")
+			}
+			emit(fmt.Sprintf("reasm stream 1 0 %d %s", isn, lib.Hex(S)))
+			for i, k := range idx {
+				a := alpha[k]
+				if a.flush {
+					emit(fmt.Sprintf("reasm flush %d 0 %s 1", i+10, keep))
+					continue
+				}
+				seq, flags := isn+1+uint32(a.off), "A"
+				if a.syn {
+					seq, flags = isn, "S"
+				}
+				if a.fin {
+					flags += "F"
+				}
+				emit(fmt.Sprintf("reasm seg 1 0 %d %s %d 1 %s 1 %s", seq, flags, i+1, keep, lib.Hex(S[a.off:a.off+a.n])))
+			}
+			emit(fmt.Sprintf("reasm flushall %s 1", keep))
+			caseNo++
+		}
+		i := depth - 1
+		for i >= 0 {
+			idx[i]++
+			if idx[i] < len(alpha) {
+				break
+			}
+			idx[i] = 0
+			i--
+		}
+		if i < 0 {
+			break
+		}
+	}
+}
+
+// limitGrowth: the scenario of DESIGN §7 — nine queued one-page segments, then three-page segments.
+func limitGrowth(emit func(string), L int, perConn bool) {
+	emit("reset")
+	if perConn {
+		emit(fmt.Sprintf("reasm opts %d 0", L))
+	} else {
+		emit(fmt.Sprintf("reasm opts 0 %d", L))
+	}
+	emit("reasm seg 1 0 1000 S 1 1 n 1 -")
+	seq := 1001 + 10
+	for i := 0; i < L-1; i++ {
+		emit(fmt.Sprintf("reasm seg 1 0 %d A %d 1 n 1 %s", seq, 2+i, lib.Hex(make([]byte, 100))))
+		seq += 110
+	}
+	for i := 0; i < 12; i++ {
+		emit(fmt.Sprintf("reasm seg 1 0 %d A %d 1 n 1 %s", seq, 20+i, lib.Hex(make([]byte, 4000))))
+		seq += 4010
+	}
+	emit("reasm flushall n 1")
+}
 
 func gen(r *lib.Rand, tier string, emit func(string)) {
-	emit("reset")
+	thorough := tier == "thorough"
+	seqCase(r.Fork(), emit, map[bool]int{false: 2000, true: 50000}[thorough])
+	smallScope(emit, map[bool]int{false: 4, true: 5}[thorough])
+	limitGrowth(emit, 10, true)
+	limitGrowth(emit, 10, false)
+	limitGrowth(emit, 3, true)
+	n1, n2, n3 := 2500, 700, 600
+	if thorough {
+		n1, n2, n3 = 40000, 10000, 8000
+	}
+	for i := 0; i < n1; i++ {
+		streamCase(r.Fork(), tier, emit, 1)
+	}
+	for i := 0; i < n2; i++ {
+		streamCase(r.Fork(), tier, emit, 2+r.Intn(4))
+	}
+	for i := 0; i < n3; i++ {
+		junkCase(r.Fork(), emit)
+	}
 }
